@@ -309,7 +309,7 @@ func c07(p *core.Program, r *core.Report) {
 	setFn := p.SSAFunc("", "(*Bounds).Set")
 	decodeBBox := p.SSAFunc(rel, "decodeBBox")
 	panicReachRule(p, r, r3, entries, func(s eng.PanicSite) (bool, string) {
-		if s.Fn == setFn && setFn != nil && evenOnly {
+		if s.Fn == setFn && setFn != nil && evenOnly && oddCountAssertion(setFn, s.Instr) {
 			// all decoder-side callers of Set must be decodeBBox
 			node := p.CallGraph().Nodes[setFn]
 			for _, in := range node.In {
@@ -587,4 +587,31 @@ func decodeDestinationFreshRule(p *core.Program, r *core.Report, rule string) {
 		r.OK(rule, "encoding/geojson/no-decode-in-loop", "encoding/geojson/geojson.go", true, "no decode call of the package sits in a loop (the element decoders are reached through encoding/json, which allocates each element)")
 	}
 	r.Count("decode_calls_in_loops", total)
+}
+
+// oddCountAssertion: the panic at in is the one Bounds.Set raises for an odd number of arguments - every path to it
+// takes an edge on which `len(args) & 1 != 0` (or `len(args) % 2 != 0`) holds. Any other panic in Set is not what
+// the length table discharges.
+func oddCountAssertion(fn *ssa.Function, in ssa.Instruction) bool {
+	for _, e := range mustEdgesTo(fn, in.Block()) {
+		c, ok := eng.EdgeCmp(fn.Blocks[e[0]], e[1])
+		if !ok {
+			continue
+		}
+		k, isK := eng.ConstInt(c.Y)
+		bo, isBo := eng.StripConv(c.X).(*ssa.BinOp)
+		if !isK || !isBo {
+			continue
+		}
+		one, isOne := eng.ConstInt(bo.Y)
+		lc, isLen := eng.StripConv(bo.X).(*ssa.Call)
+		if !isLen || eng.BuiltinName(lc) != "len" {
+			continue
+		}
+		odd := (bo.Op == token.AND && isOne && one == 1) || (bo.Op == token.REM && isOne && one == 2)
+		if odd && (c.Op == token.NEQ && k == 0 || c.Op == token.EQL && k == 1) {
+			return true
+		}
+	}
+	return false
 }
